@@ -17,10 +17,10 @@
 #define AWS_LOG_N 8		/* calls that can be logged (a front end makes 7) */
 #endif
 #ifndef AWS_MMAX
-#define AWS_MMAX 320		/* longest message that can be logged */
+#define AWS_MMAX 32		/* longest message that can be logged (>= AWS_ABSMAX, >= the longest input) */
 #endif
 #ifndef AWS_KMAX
-#define AWS_KMAX 80		/* longest key that can be logged ("AWS4" || secret, or a 32-byte MAC) */
+#define AWS_KMAX 32		/* longest key that can be logged ("AWS4" || secret, or a 32-byte MAC) */
 #endif
 
 #define AWS_K_SHA256	1
